@@ -31,7 +31,8 @@ def build_pairs(ctx):
     # versions
     vers = [(1, 2), (1, 1), (1, 3), (2, 1), (1, 2.0), (1.0, 2), (True, 2), (1, True), (2 ** 53, 2 ** 53 + 1), (float(2 ** 53), float(2 ** 53)),
             (float(2 ** 53), 2 ** 53 + 1), (float(2 ** 53), float(2 ** 53 + 2)), (10 ** 30, 10 ** 30 + 1), (3, 4), (3, "4"), (1, 2.5), (0, 1), (1, None),
-            (float("inf"), 2), (1, float("inf")), (1, float("nan")), (-1, 0), (5, 6.0), (2 ** 63 - 1, 2 ** 63)]
+            (float("inf"), 2), (1, float("inf")), (1, float("nan")), (-1, 0), (5, 6.0), (2 ** 63 - 1, 2 ** 63),
+            (10 ** 400, 1e300), (1e300, 10 ** 400), (10 ** 400, 10 ** 400 + 1), (2 ** 1024, 2 ** 1024 + 1), (1e300, 1e300), (2 ** 1024 - 1, float(2 ** 1023) * 2 if False else 1e308)]
     for tv, uv in vers:
         T = M.envelope(M.root_md(tv, (0,), 1), (0,))
         out.append((T, M.envelope(M.root_md(uv, (0,), 1), (0,)), {"s": "versions", "v": repr((tv, uv))}))
@@ -42,6 +43,16 @@ def build_pairs(ctx):
         out.append((T, U, {"s": "types"}))
     for tdl, udl in itertools.product(({}, {"key_mgr": M.delegation((0,), 1)}, {"root": M.delegation((0,), 1)}, {"Root": M.delegation((0,), 1)}), repeat=2):
         out.append((M.envelope(M.md("root", 1, tdl), (0,)), M.envelope(M.md("root", 2, udl), (0,)), {"s": "root delegation presence"}))
+    # delegations whose names resemble "root" (file-name forms, case, blanks), before and after the real one: only "root" rules
+    for alias in ("root.json", "Root", "root ", "1.root.json", "ROOT", "roots"):
+        for first in (False, True):
+            for signers in ((0,), (2,), (0, 2)):
+                dl = {alias: M.delegation((2,), 1), "root": M.delegation((0,), 1)} if first else {"root": M.delegation((0,), 1), alias: M.delegation((2,), 1)}
+                Tt = M.envelope(M.md("root", 1, dict(dl, key_mgr=M.delegation((4,), 1))), (0,))
+                out.append((Tt, M.envelope(M.root_md(2, (0,), 1), signers), {"s": "root-like delegation names", "alias": alias}))
+                out.append((Tt, M.envelope(M.md("root", 2, dict(dl, key_mgr=M.delegation((4,), 1))), signers), {"s": "root-like delegation names", "alias": alias}))
+        Tt = M.envelope(M.md("root", 1, {alias: M.delegation((2,), 1), "key_mgr": M.delegation((4,), 1)}), (2,))
+        out.append((Tt, M.envelope(M.md("root", 2, {alias: M.delegation((2,), 1), "key_mgr": M.delegation((4,), 1)}), (2,)), {"s": "root-like delegation names", "alias": alias}))
     # raw-mode signatures must not count; thresholds as floats/bools
     out.append((M.envelope(M.root_md(1, (0,), 1), (0,)), M.envelope(M.root_md(2, (0,), 1), (0,), mode="raw"), {"s": "raw sigs"}))
     for th in (1.0, True, 2.0, 0, -1, 10 ** 20):
@@ -62,6 +73,15 @@ def build_pairs(ctx):
         out.append((T0, del_at(U0, p), {"s": "deletion-U", "path": repr(p)}))
         if p[0] == "signed":
             out.append((del_at(T0, p), U0, {"s": "deletion-T", "path": repr(p)}))
+    # one root key under several spellings (trusted side, offered side, or only in the unsigned map): never a second signer
+    for sp in M.RESPELL:
+        Tr = M.envelope(M.md("root", 1, {"root": M.respelled(0, 2, (sp,)), "key_mgr": M.delegation((4,), 1)}), (0,))
+        Ur = M.respell_signatures(M.envelope(M.root_md(2, (0,), 1), (0,)), 0, (sp,))
+        out.append((Tr, Ur, {"s": "respelled key in the trusted root", "sp": sp}))
+        Us = M.md("root", 2, {"root": M.respelled(0, 2, (sp,)), "key_mgr": M.delegation((4,), 1)})
+        out.append((T0, M.respell_signatures(M.envelope(Us, (0,)), 0, (sp,)), {"s": "respelled key in the offered root", "sp": sp}))
+        T2 = M.envelope(M.root_md(1, (0, 1), 2), (0, 1))
+        out.append((T2, M.respell_signatures(M.envelope(M.root_md(2, (0, 1), 2), (0,)), 0, (sp, "upper", "lead_ws")), {"s": "respelled entries in the map", "sp": sp}))
     # self-appointed: new root lists and is signed by attacker keys only / attacker raises its own threshold
     out.append((T0, M.envelope(M.root_md(2, (2, 3), 1), (2, 3)), {"s": "self-appointed"}))
     out.append((T0, M.envelope(M.root_md(2, (2, 3), 1, extra_field={"root": PUBHEX[2]}), (2, 3)), {"s": "self-appointed"}))
@@ -96,5 +116,14 @@ def run(ctx):
         except Exception:
             return False
     core.run_stream(ctx, core.Stream("verify_root: rules x signer subsets x signature states x versions x types x path mutations", cases, rel, oracle, nontriv))
+    def want(c):
+        _, T, U = wire.dec(c["w"])
+        try:
+            return M.root_rhs(T, U)
+        except Exception:
+            return False
+    sub = [c for c in cases if c["meta"]["s"] in ("rules x signer subsets", "signature state", "self-appointed", "raw sigs", "types",
+                                                 "respelled key in the trusted root", "respelled key in the offered root", "respelled entries in the map")]
+    core.failing_stdout_streams(ctx, "verify_root on the signer-subset / signature-state / self-appointed cases", sub, want)
     ctx.assumptions = ["float versions/thresholds with |x| < 1e16 (float view computed from the decimal token)",
                        "OpenPGP-style signatures are made by the harness (RFC 4880 framing + ed25519); GnuPG itself is exercised under C10"]
